@@ -2084,7 +2084,7 @@ class Association(threading.Thread):
                     except Exception as exc:
                         LOGGER.error("Failed to decode the received Identifier dataset")
                         LOGGER.exception(exc)
-                        yield status, None
+                        identifier = None
 
                 yield status, identifier
                 continue
